@@ -13,7 +13,10 @@ def harnesses(tier):
                 bound='alphaH in [1e-20,1e-16], jH in [1e-20,1e3] (the 23 flux decades), nH in [1e4,1e12], T in [1e2,1e5], all symbolic reals; all paths of the iteration (it converges in <= 3 passes here); double operations read as exact real operations (rounding outside this clause), sqrt by s>=0 & s*s=a, exp by positivity/sign facts'),
             BHarness('I2_metal_stages', 'c06_real.cpp', 'h_i2_metals', cflags=cf, real_model=True, perturb=False, timeout=900,
                 what='REAL-MODEL: compute_ionization_states_metals with the real ChargeTransferRates: for every positive electron density all 12 metal stage fractions are in [0,1], the tracked stages of C, N, O, Ne, S each sum to at most 1, and no denominator is zero (finite results); the charge-transfer rates are proved positive on the way (1 - 0.92 exp(-8.38 T4) > 0 etc.)',
-                bound='12 intensity integrals in [0,1e3], recombination rates in [1e-22,1e-14] (stub: positive), ne in (0,1e13], nh0, nhe0, nhp in [0,1e12], T in [1e2,1e5]; exact real operations, exp/pow by sign facts')]
+                bound='12 intensity integrals in [0,1e3], recombination rates in [1e-22,1e-14] (stub: positive), ne in (0,1e13], nh0, nhe0, nhp in [0,1e12], T in [1e2,1e5]; exact real operations, exp/pow by sign facts'),
+            BHarness('I3_special_cases', 'c06_real.cpp', 'h_i3_special', cflags=cf, strict=True, timeout=900,
+                what='calculate_ionization_state (per cell) without hydrogen-ionizing radiation or without gas: hydrogen and helium exactly neutral (1) resp. absent (0), every metal fraction exactly 0 or 1 with stage sums <= 1, heating estimator normalised exactly once; the calculator object (rates, abundances) is not read on these paths',
+                bound='jfac, hfac > 0, n >= 0, mean intensities >= 0 symbolic with (J_H == 0 or n == 0); IEEE-UF')]
 
 def run(tier, only=None):
     ev = Evidence('C06', tier); work = Work('C06')
